@@ -131,8 +131,10 @@ deriving instance DecidableEq for Tree, Args
 structure Cfg where
   /-- `domain_size=` shows the domain size (false: the domain indices once more — the typo) -/
   domSize : Bool
-  /-- evaluation nodes carry the function identity and the number of arguments -/
+  /-- evaluation nodes carry the function identity -/
   evalFn : Bool
+  /-- evaluation nodes carry the number of arguments -/
+  evalArity : Bool
   /-- time-step / iterate indices are part of the keys of variables and time-dependent arrays -/
   timeIdx : Bool
   /-- a projection list is keyed by the keys of its members (false: by their `repr`) -/
@@ -146,9 +148,9 @@ structure Cfg where
   deriving DecidableEq, Repr
 
 /-- the key construction demanded by the property -/
-def Cfg.repaired : Cfg := ⟨true, true, true, true, true, true, true⟩
+def Cfg.repaired : Cfg := ⟨true, true, true, true, true, true, true, true⟩
 /-- the key construction of the pinned commit -/
-def Cfg.original : Cfg := ⟨false, false, false, false, false, false, false⟩
+def Cfg.original : Cfg := ⟨false, false, false, false, false, false, false, false⟩
 
 /-- `Projection._key` -/
 def projKey (c : Cfg) (p : Proj) : List Tok :=
@@ -211,8 +213,8 @@ def key (c : Cfg) : Tree → List Tok
   | .leaf l => leafKey c l
   | .bin o a b => .op o :: .sp :: (key c a ++ .sp :: key c b)
   | .eval fname fid args =>
-      (if c.evalFn then [.ev, .sp] ++ fnKey fname fid ++ [.sp, .nargs args.length] else [.ev])
-        ++ argsKey c args
+      (if c.evalFn then [.ev, .sp] ++ fnKey fname fid else [.ev])
+        ++ (if c.evalArity then [.sp, .nargs args.length] else []) ++ argsKey c args
 /-- every child key is preceded by a blank -/
 def argsKey (c : Cfg) : Args → List Tok
   | .nil => []
@@ -566,5 +568,126 @@ def wfArgs : Args → Bool
   | .nil => true
   | .cons t ts => wfTree t && wfArgs ts
 end
+
+/-! ### previous_timestep / previous_iteration (`TimeDependentOperator`, `IterativeOperator`,
+`_get_previous_time_or_iterate`) and the cached key
+
+`none` models the exception the code raises (`ValueError`: time shift of an operator at a previous iterate
+or vice versa; `AssertionError`: zero steps). -/
+
+/-- shift of a leaf; `time = true`: `previous_timestep(steps)`, else `previous_iteration(steps)` -/
+def shiftLeaf (time : Bool) (steps : Nat) : Leaf → Option Leaf
+  | .var name dt dom ts it =>
+      if steps = 0 then none
+      else if time then (if it ≥ 0 then none else some (.var name dt dom (ts + steps) it))
+      else (if ts ≥ 0 then none else some (.var name dt dom ts (it + steps)))
+  | .mdvar name dt doms ts it =>
+      if steps = 0 then none
+      else if time then (if it ≥ 0 then none else some (.mdvar name dt doms (ts + steps) it))
+      else (if ts ≥ 0 then none else some (.mdvar name dt doms ts (it + steps)))
+  | .tdda name dt doms ts =>
+      if time then (if steps = 0 then none else some (.tdda name dt doms (ts + steps)))
+      else some (.tdda name dt doms ts)
+  | l => some l
+
+mutual
+/-- the recursion of `_get_previous_time_or_iterate`: a copy of the tree with shifted leaves -/
+def shiftTree (time : Bool) (steps : Nat) : Tree → Option Tree
+  | .leaf l => (shiftLeaf time steps l).map .leaf
+  | .bin o a b =>
+    match shiftTree time steps a, shiftTree time steps b with
+    | some a', some b' => some (.bin o a' b')
+    | _, _ => none
+  | .eval f i args => (shiftArgs time steps args).map (.eval f i)
+def shiftArgs (time : Bool) (steps : Nat) : Args → Option Args
+  | .nil => some .nil
+  | .cons t ts =>
+    match shiftTree time steps t, shiftArgs time steps ts with
+    | some t', some ts' => some (.cons t' ts')
+    | _, _ => none
+end
+
+/-- the leaf reacts to the shift -/
+def Leaf.dependsOn (time : Bool) : Leaf → Bool
+  | .var .. | .mdvar .. => true
+  | .tdda .. => time
+  | _ => false
+
+mutual
+def Tree.dependsOn (time : Bool) : Tree → Bool
+  | .leaf l => l.dependsOn time
+  | .bin _ a b => a.dependsOn time || b.dependsOn time
+  | .eval _ _ args => args.dependsOn time
+def Args.dependsOn (time : Bool) : Args → Bool
+  | .nil => false
+  | .cons t ts => t.dependsOn time || ts.dependsOn time
+end
+
+/-- an operator object: its tree and `_cached_key` -/
+structure Obj where
+  tree : Tree
+  cache : Option (List Tok)
+
+/-- which code paths discard the cached key (both `true` = what the property needs) -/
+structure CachePolicy where
+  /-- `previous_timestep` / `previous_iteration` / `_get_previous_time_or_iterate` reset the key that
+      `copy.copy` carried over (in /repo since fix 95886d1ad) -/
+  resetOnShift : Bool
+  /-- `Scalar.set_value` resets the key (proposed: fixes/C45-8-scalar-set-value.diff) -/
+  resetOnSet : Bool
+
+/-- calls on an operator object -/
+inductive HOp where
+  | key                              -- `_key()` / `hash()`
+  | shift (time : Bool) (steps : Nat)  -- continue with the shifted copy
+  | set (repr : Str)                 -- `Scalar.set_value`
+
+/-- `_key()`: the cached key if there is one, else compute and cache -/
+def Obj.getKey (c : Cfg) (o : Obj) : List Tok × Obj :=
+  match o.cache with
+  | some k => (k, o)
+  | none => (key c o.tree, { o with cache := some (key c o.tree) })
+
+/-- a leaf that does not react to the shift is returned itself (no copy, the cache stays) -/
+def Obj.sameObject (o : Obj) (time : Bool) : Bool :=
+  match o.tree with
+  | .leaf l => !l.dependsOn time
+  | _ => false
+
+def Obj.setValue (pol : CachePolicy) (r : Str) (o : Obj) : Option Obj :=
+  match o.tree with
+  | .leaf (.scalar _) => some ⟨.leaf (.scalar r), if pol.resetOnSet then none else o.cache⟩
+  | _ => none
+
+def Obj.step (c : Cfg) (pol : CachePolicy) (o : Obj) : HOp → Option (Obj × Option (List Tok))
+  | .key => some ((o.getKey c).2, some (o.getKey c).1)
+  | .shift time steps =>
+    (shiftTree time steps o.tree).map (fun t =>
+      (⟨t, if o.sameObject time then o.cache else if pol.resetOnShift then none else o.cache⟩, none))
+  | .set r => (o.setValue pol r).map (fun o' => (o', none))
+
+/-- a history of calls; the observed keys, `none` if a call raises -/
+def Obj.run (c : Cfg) (pol : CachePolicy) : Obj → List HOp → Option (Obj × List (List Tok))
+  | o, [] => some (o, [])
+  | o, h :: hs =>
+    match o.step c pol h with
+    | none => none
+    | some (o', out) =>
+      match Obj.run c pol o' hs with
+      | none => none
+      | some (o'', outs) => some (o'', (match out with | some k => [k] | none => []) ++ outs)
+
+/-- the same history on plain trees (what the keys ought to be) -/
+def specRun (c : Cfg) : Tree → List HOp → Option (Tree × List (List Tok))
+  | t, [] => some (t, [])
+  | t, .key :: hs => (specRun c t hs).map (fun (t', outs) => (t', key c t :: outs))
+  | t, .shift time steps :: hs =>
+    match shiftTree time steps t with
+    | none => none
+    | some t' => specRun c t' hs
+  | t, .set r :: hs =>
+    match t with
+    | .leaf (.scalar _) => specRun c (.leaf (.scalar r)) hs
+    | _ => none
 
 end PorepyVerif.C45
